@@ -10,6 +10,9 @@ import json, os, re, shutil, subprocess, sys, tempfile, threading, time
 
 VERIF = os.path.dirname(os.path.dirname(os.path.abspath(__file__)))
 REPO = os.environ.get("VERIF_REPO", "/repo")
+# where evidence and replays go: /verif for the real tree; a scratch directory when another checkout is
+# being checked (bin/seedcheck), so that a run against a changed tree never overwrites the real evidence
+OUT = VERIF if REPO == "/repo" else os.path.join(VERIF, ".work", "alt-out")
 SPEC = os.path.join(VERIF, "spec")
 HARNESS_DIR = os.path.join(VERIF, "harness")
 HARNESS = os.path.join(HARNESS_DIR, "bin", "harness")
@@ -187,7 +190,7 @@ class Harness:
         self.out = work.path("sum.%s.json" % tag)
         cmd = [HARNESS, "replay", "--property", prop, "--systems", ",".join(systems), "--opts", opts,
                "--seed", str(seed), "--keys", keys, "--workers", str(workers), "--out", self.out,
-               "--replays", os.path.join(VERIF, "replays"),
+               "--replays", os.path.join(OUT, "replays"),
                "--findings", os.path.join(VERIF, "known_findings.json")]
         if thorough:
             cmd.append("--thorough")
@@ -246,7 +249,7 @@ class Report:
         self.distinct = 0
         # replay files of earlier runs of this check are stale
         import glob
-        for f in glob.glob(os.path.join(VERIF, "replays", prop + "-*")):
+        for f in glob.glob(os.path.join(OUT, "replays", prop + "-*")):
             try:
                 os.remove(f)
             except OSError:
@@ -296,8 +299,8 @@ class Report:
         ev = {"property_id": self.prop, "tier": self.tier, "seed": self.seed, "level": self.level,
               "coverage": cov, "assumptions": self.assumptions, "wall_s": round(wall, 1),
               "violations": len(self.violations)}
-        os.makedirs(os.path.join(VERIF, "evidence"), exist_ok=True)
-        with open(os.path.join(VERIF, "evidence", self.prop + ".json"), "w") as f:
+        os.makedirs(os.path.join(OUT, "evidence"), exist_ok=True)
+        with open(os.path.join(OUT, "evidence", self.prop + ".json"), "w") as f:
             json.dump(ev, f, indent=1)
         for fid, n in sorted(self.known.items()):
             desc = (findings_desc or {}).get(fid, "")
@@ -520,9 +523,9 @@ def walk_stage(rep, work, name, module, constants, systems, kind, opts="", invar
         if fid:
             rep.known[fid] = rep.known.get(fid, 0) + 1
             continue
-        os.makedirs(os.path.join(VERIF, "replays"), exist_ok=True)
+        os.makedirs(os.path.join(OUT, "replays"), exist_ok=True)
         import hashlib
-        rp = os.path.join(VERIF, "replays", "%s-walk-%s.ndjson" % (rep.prop, hashlib.sha1("".join(lines).encode()).hexdigest()[:16]))
+        rp = os.path.join(OUT, "replays", "%s-walk-%s.ndjson" % (rep.prop, hashlib.sha1("".join(lines).encode()).hexdigest()[:16]))
         with open(rp, "w") as f:
             f.writelines(lines)
         rep.violations.append((rp, desc))
@@ -591,8 +594,8 @@ def chunk_stage(rep, work, name, constants, systems, scales, e2e_every=1, timeou
         if sig in seen:
             continue
         seen.add(sig)
-        os.makedirs(os.path.join(VERIF, "replays"), exist_ok=True)
-        rp = os.path.join(VERIF, "replays", "C12-chunk-%s.json" % hashlib.sha1(json.dumps(f, sort_keys=True).encode()).hexdigest()[:16])
+        os.makedirs(os.path.join(OUT, "replays"), exist_ok=True)
+        rp = os.path.join(OUT, "replays", "C12-chunk-%s.json" % hashlib.sha1(json.dumps(f, sort_keys=True).encode()).hexdigest()[:16])
         with open(rp, "w") as fh:
             json.dump(f, fh, indent=1)
         rep.violations.append((rp, "%s scale %d: %s  [case %s]" % (f["system"], f["scale"], f["msg"], json.dumps(f["case"]))))
@@ -646,8 +649,8 @@ def crash_stage(rep, work, name, constants, systems, every=1, timeout=1800):
         if sig in seen:
             continue
         seen.add(sig)
-        os.makedirs(os.path.join(VERIF, "replays"), exist_ok=True)
-        rp = os.path.join(VERIF, "replays", "C15-crash-%s.json" % hashlib.sha1(json.dumps(f, sort_keys=True).encode()).hexdigest()[:16])
+        os.makedirs(os.path.join(OUT, "replays"), exist_ok=True)
+        rp = os.path.join(OUT, "replays", "C15-crash-%s.json" % hashlib.sha1(json.dumps(f, sort_keys=True).encode()).hexdigest()[:16])
         with open(rp, "w") as fh:
             json.dump(f, fh, indent=1)
         rep.violations.append((rp, "%s %s crash at call %d/%d: %s" % (f["system"], last, f["k"], f.get("of", 0), f["msg"][:400])))
@@ -709,14 +712,14 @@ def build_server_binary():
 
 
 def conc_stage(rep, work, name, systems, clients, runs, ops, keys, gated, race=False, witness=False, timeout=900, seq=0,
-               kill_rounds=0):
+               kill_rounds=0, partrace=0):
     tag = re.sub(r"\W", "_", name)
     trace = work.path("conc.%s.ndjson" % tag)
     out = work.path("conc.%s.json" % tag)
     binary = HARNESS + ("-race" if race else "")
     cmd = [binary, "conc", "--systems", ",".join(systems), "--seed", str(rep.seed), "--runs", str(runs),
            "--clients", ",".join(str(c) for c in clients), "--ops", str(ops), "--keys", str(keys),
-           "--trace", trace, "--out", out, "--gated=%s" % ("true" if gated else "false")]
+           "--trace", trace, "--out", out, "--gated=%s" % ("true" if gated else "false"), "--partrace", str(partrace)]
     if seq:
         cmd += ["--seq", str(seq)]
     if kill_rounds:
@@ -725,14 +728,14 @@ def conc_stage(rep, work, name, systems, clients, runs, ops, keys, gated, race=F
     env = dict(os.environ, GORACE="halt_on_error=0 history_size=3")
     p = subprocess.run(cmd, capture_output=True, text=True, env=env, timeout=timeout)
     err = p.stderr
-    os.makedirs(os.path.join(VERIF, "replays"), exist_ok=True)
+    os.makedirs(os.path.join(OUT, "replays"), exist_ok=True)
     import hashlib
     if "DATA RACE" in err:
         # the race detector is the observation channel for the race clause
         first = err[err.index("WARNING: DATA RACE"):][:6000]
         in_repo = "/repo/" in first or "gofakes3" in first
         if in_repo:
-            rp = os.path.join(VERIF, "replays", rep.prop + "-race-%s.txt" % hashlib.sha1(first.encode()).hexdigest()[:16])
+            rp = os.path.join(OUT, "replays", rep.prop + "-race-%s.txt" % hashlib.sha1(first.encode()).hexdigest()[:16])
             with open(rp, "w") as f:
                 f.write(first)
             fid = classify(rep.prop, ",".join(systems), "Race", first)
@@ -744,7 +747,7 @@ def conc_stage(rep, work, name, systems, clients, runs, ops, keys, gated, race=F
     if p.returncode != 0 and not (raced and os.path.exists(out)):
         if "fatal error:" in err or "panic:" in err:
             first = err[max(0, err.find("fatal error:")):][:4000]
-            rp = os.path.join(VERIF, "replays", rep.prop + "-fatal-%s.txt" % hashlib.sha1(first.encode()).hexdigest()[:16])
+            rp = os.path.join(OUT, "replays", rep.prop + "-fatal-%s.txt" % hashlib.sha1(first.encode()).hexdigest()[:16])
             with open(rp, "w") as f:
                 f.write(first)
             rep.violations.append((rp, "the server code died under concurrent requests: " + first.splitlines()[0]))
@@ -757,7 +760,7 @@ def conc_stage(rep, work, name, systems, clients, runs, ops, keys, gated, race=F
         if fid:
             rep.known[fid] = rep.known.get(fid, 0) + 1
         else:
-            rp = os.path.join(VERIF, "replays", rep.prop + "-hang-%s.txt" % hashlib.sha1(pr.encode()).hexdigest()[:16])
+            rp = os.path.join(OUT, "replays", rep.prop + "-hang-%s.txt" % hashlib.sha1(pr.encode()).hexdigest()[:16])
             with open(rp, "w") as f:
                 f.write(pr)
             rep.violations.append((rp, pr))
@@ -829,7 +832,7 @@ def conc_stage(rep, work, name, systems, clients, runs, ops, keys, gated, race=F
         if fid:
             rep.known[fid] = rep.known.get(fid, 0) + 1
             continue
-        rp = os.path.join(VERIF, "replays", rep.prop + "-conc-%s.ndjson" % hashlib.sha1("".join(lines).encode()).hexdigest()[:16])
+        rp = os.path.join(OUT, "replays", rep.prop + "-conc-%s.ndjson" % hashlib.sha1("".join(lines).encode()).hexdigest()[:16])
         with open(rp, "w") as f:
             f.writelines(lines)
         rep.violations.append((rp, desc))
@@ -869,7 +872,7 @@ def fuzz_stage(rep, work, name, constants, systems, states, opts="", every=1, ti
     rc = p.wait()
     t.join(timeout=5)
     err = b"".join(errbuf).decode("utf-8", "replace")
-    os.makedirs(os.path.join(VERIF, "replays"), exist_ok=True)
+    os.makedirs(os.path.join(OUT, "replays"), exist_ok=True)
     if rc != 0:
         # the process under test died: attribute to the request in flight and confirm in a fresh process
         inflight = []
@@ -893,7 +896,7 @@ def fuzz_stage(rep, work, name, constants, systems, states, opts="", every=1, ti
                                     capture_output=True, text=True, preexec_fn=limit, timeout=300)
                 if p2.returncode == 0:
                     continue
-                rp = os.path.join(VERIF, "replays", "C09-fatal-%s.json" % hashlib.sha1(json.dumps(culprit, sort_keys=True).encode()).hexdigest()[:16])
+                rp = os.path.join(OUT, "replays", "C09-fatal-%s.json" % hashlib.sha1(json.dumps(culprit, sort_keys=True).encode()).hexdigest()[:16])
                 with open(rp, "w") as f:
                     json.dump({"request": culprit, "stderr": p2.stderr[-3000:]}, f, indent=1)
                 first = [l for l in p2.stderr.splitlines() if "fatal error" in l or "panic:" in l][:1]
@@ -914,7 +917,7 @@ def fuzz_stage(rep, work, name, constants, systems, states, opts="", every=1, ti
             first = [l for l in err.splitlines() if "fatal error" in l or "panic:" in l][:1]
             desc = "the whole process died (%s) in %s while serving one of: %s" % (
                 first[0] if first else "killed", frames[0].strip(), json.dumps([c.get("req") for c in inflight])[:600])
-            rp = os.path.join(VERIF, "replays", "C09-fatal-%s.txt" % hashlib.sha1(desc.encode()).hexdigest()[:16])
+            rp = os.path.join(OUT, "replays", "C09-fatal-%s.txt" % hashlib.sha1(desc.encode()).hexdigest()[:16])
             with open(rp, "w") as f:
                 f.write(desc + "\n\n" + err[:6000])
             fid = classify(rep.prop, ",".join(systems), "Fatal", desc)
@@ -1000,7 +1003,7 @@ def fuzz_stage(rep, work, name, constants, systems, states, opts="", every=1, ti
         if fid:
             rep.known[fid] = rep.known.get(fid, 0) + 1
             continue
-        rp = os.path.join(VERIF, "replays", "C09-req-%s.json" % hashlib.sha1(json.dumps(bad, sort_keys=True).encode()).hexdigest()[:16])
+        rp = os.path.join(OUT, "replays", "C09-req-%s.json" % hashlib.sha1(json.dumps(bad, sort_keys=True).encode()).hexdigest()[:16])
         with open(rp, "w") as f:
             json.dump(bad, f, indent=1)
         rep.violations.append((rp, desc))
